@@ -20,11 +20,11 @@ func genWriterResps(r *rng, faults int) []resp {
 		if r.chance(faults) {
 			switch r.intn(3) {
 			case 0:
-				rs = append(rs, resp{r.rangeIn(0, 5), r.pick(2, 3)}) // error with partial write
+				rs = append(rs, resp{r.rangeIn(0, 5), r.pick(2, 3, 7, 8, 9)}) // error with partial write (7, 8, 9: the library's own sentinel errors)
 			case 1:
 				rs = append(rs, resp{r.rangeIn(0, 5), 0}) // short write without error
 			default:
-				rs = append(rs, resp{0, 2})
+				rs = append(rs, resp{0, r.pick(2, 2, 7)})
 			}
 		} else {
 			rs = append(rs, resp{1 << 20, 0})
@@ -436,6 +436,9 @@ func genDLarge(r *rng, dd bool, id string, cnt counters, emit func(line, out str
 		switch {
 		case x < 25 || avail == 0:
 			n := r.pick(1, 1000, 4096, 4097, 70000, 300000, room-1, room, room+1, r.rangeIn(1, 200000))
+			if r.chance(15) {
+				n = W + 1<<20 + r.pick(0, 1, 100) // one write of more than WindowSize + 1 MiB
+			}
 			if n > budget {
 				n = budget
 			}
@@ -467,7 +470,10 @@ func genDLarge(r *rng, dd bool, id string, cnt counters, emit func(line, out str
 				o = max(1, min(avail+ll, 3))
 			}
 			m := r.pick(3, 70000, 200001, 500000)
-			tl := r.pick(0, 0, 1, 9000)
+			tl := r.pick(0, 0, 1, 9000, W+1<<20+r.intn(50))
+			if tl > budget {
+				tl = 9000
+			}
 			if dd && room < 256 {
 				ll, tl = min(ll, 100*room), min(tl, 100*room)
 			}
